@@ -14,7 +14,9 @@ MANIFEST = dict(
          "'the successor state is consistent', on five schema shapes). Every DML statement the unit of work emits (before_cursor_execute, "
          "with parameters) during the flushes of the OrmGraph walks - one-to-many tree with nullable and NOT NULL FK, with and without "
          "delete / delete-orphan cascades, mixed inserts, deletes and re-parenting in one flush - and of generated flushes on a "
-         "self-referential tree, a mutual FK cycle with post_update and a many-to-many association is validated by TLC, in emission order, as "
+         "self-referential tree, a mutual FK cycle with post_update, a bidirectional many-to-many association, an adjacency-list mapper that also "
+         "carries a unidirectional self-referential many-to-many (association rows handled inside a unit-of-work cycle: unlink + delete of the "
+         "member in one flush) and a unidirectional one-to-many is validated by TLC, in emission order, as "
          "a behaviour of ConstraintDB (TraceUow.tla, all traces in one run); the same flushes run on real SQLite with foreign_keys=ON. A "
          "flush that fails counts only if the intended final state satisfies the constraints, evaluated in the specification.",
     design_ref="3.9, 4 (C31), Appendix J",
